@@ -126,6 +126,9 @@ func newPackage(program *loader.Program, pkgInfo *loader.PackageInfo, plugins []
 
 		changed := false
 		calls := append(fileInfo.undefined, fileInfo.derived...)
+		// register the calls in source order, whether or not they already resolve into
+		// an existing derived.gen.go, so that the output does not depend on the old file.
+		sort.SliceStable(calls, func(i, j int) bool { return calls[i].Expr.Lparen < calls[j].Expr.Lparen })
 		for _, call := range calls {
 			// log.Printf("call: %v", call.Name)
 			if call.HasUndefined() {
